@@ -69,7 +69,7 @@ def nl_rule(cell, path):
 def html_rule(cell, path):
     parts = []
     for ii, it in enumerate(cell):
-        if is_table(it):
+        if is_table(it) or it == "/":
             continue
         ip = f"{path}i{ii}"
         parts.append(tok(ip + "a") + tok(ip + "b") if it == "s" else par_text(it, ip))
@@ -207,6 +207,9 @@ def html_text(doc):
             for ci, c in enumerate(r):
                 ctag = "th" if ri < t["hdr"] else "td"
                 cp = f"{path}.r{ri}c{ci}"
+                if c == ["/"]:          # empty cell in self-closed form
+                    out += f"<{ctag}/>"
+                    continue
                 out += f"<{ctag}>"
                 if c == ["p"]:
                     out += tok(cp + "i0")
@@ -545,6 +548,7 @@ def search_shapes(obligation):
                   [T([[[inner]]])], [T([[["p", inner]], [P]])], [T([[P], [P]], 1)]]
         if fname in ("html_extractor.py", "epub_extractor.py"):
             shapes.append([T([[["s"]]])])
+            shapes += [[T([[["/"], P]])], [T([[P, ["/"]], [["/"], P]], 1)], [T([[["/"]]])]]
         if fname == "pptx_extractor.py":
             shapes = [s for s in shapes if len(s) == 1 and not any(is_table(i) for r in s[0]["rows"] for c in r for i in c) and not s[0]["hdr"]]
         if fname == "odp_extractor.py":
